@@ -101,7 +101,26 @@ LEVEL_TEXT = ("Coq theorems, all for every base B >= 2, mode, precision p >= 1 a
               "for rational exact values (C03_check_contract_sound, C03_rat_exp, C03_cmp_kx, C03_check_contract_magnitude). Every "
               "implementation answer of add/sub/mul/div/sqrt/sqr/cubic/inv (operands that fit AND over-long ones), rem, the Euclidean "
               "forms, the FBig operators in every form and Round::round_fract called directly is decided by that checker / the exact "
-              "comparison, must be a normalised Repr, and is compared digit for digit with the models that contain every Repr::new.")
+              "comparison, must be a normalised Repr, and is compared digit for digit with the models that contain every Repr::new. "
+              "ROUND 4: the two findings about operands longer than the precision are REPAIRED in float/src/{add,mul,div}.rs (/repo "
+              "b8f1245, 675af08, da565f6) and the theorems are about the repaired code: the expansion step of repr_round_sum is a loop "
+              "(fuelled model, the stated fuel always suffices, loop invariant and the exact meaning of its break test: "
+              "C03_round_sum_loop_invariant, C03_round_sum_break_test), so repr_round_sum / Context::add / sub return the specification "
+              "rounding of the exact sum for operands of ANY length with no exception left (C03_round_sum_repaired, "
+              "C03_add_repaired_any_length, C03_sub_repaired_any_length); mul / sqr / cubic round the exact product once and repr_div / "
+              "div / inv / FBig / FBig divide an over-long dividend by rhs * B^shift and round the exact quotient once, for operands of ANY "
+              "length (C03_mul_sqr_cubic_repaired_any_length, C03_div_repaired_any_length, C03_div_repaired_panics); each repair is "
+              "conservative - outside the former class the repaired code computes exactly what the old code computed, so every earlier "
+              "theorem (operands that fit, effective additions, thresholds) carries over (C03_*_repair_is_conservative, "
+              "C03_former_witnesses_repaired, C03_repaired_results_normalised). The WHOLE bodies of repr_round_sum (with its loop), "
+              "repr_add_large_small, repr_add_small_large, Context::add / sub / mul / sqr / cubic / repr_div / div / inv / sqrt are "
+              "regenerated from the Rust source on every run by a symbolic executor and proved equal, for all inputs, to the hand-written "
+              "models with every Repr::new (C03_add_bodies_regenerated, C03_op_bodies_regenerated). Product for FBig is a chain of "
+              "operator steps, each one rounding of the exact product at the running precision max(p_1..p_k), starting from ONE with "
+              "unlimited precision (C03_product_is_a_chain_of_roundings). Exponents as machine integers: mul / sqr / cubic with every "
+              "exponent computation checked against isize return the unbounded model iff the first exponent sum, the exponent of the "
+              "rounded product and the one Repr::new gives it fit, and panic when the first sum does not "
+              "(C03_exponent_range_side_conditions).")
 LEVEL_NOTE = ("Only compared, not proved: (1) the hand-written models are tied to the code by the correspondence run (model fidelity is "
               "measured and must be 100%) and by the fragments regenerated on every run (rounding tables, add.rs / root.rs constants, the "
               "two literals and the decision order of round_fract's closure, Context::div's pre-shrinking test, repr_div's shifts, and in "
@@ -113,11 +132,24 @@ LEVEL_NOTE = ("Only compared, not proved: (1) the hand-written models are tied t
               "the verdict of check_contract on XSqrt values is trusted (the sqrt model itself is proved: C03_sqrt, C03_sqrt_any_length); "
               "(4) the digit estimates digits_ub / digits_lb are abstract: addition holds for every estimate not below the true digit "
               "count, Context::div for every estimate whatsoever when the dividend fits; (5) IBig arithmetic under the float layer is taken "
-              "as Z (C01/C02), the ring arithmetic of repr_rem's ConstDivisor branch as Z modulo |rhs| (C13); (6) beyond the pre-shrinking "
-              "thresholds of mul / sqr / cubic / div and inside add_overlong_cancellation the contract does NOT hold (two open findings, "
-              "as-is models, refutation lemmas): there the run only checks that the implementation does what the as-is model predicts; "
-              "(7) the ownership forms of % and the Euclidean traits are one model each (they clone and forward).")
-TECHNIQUE = "Coq proof (rounding tables, constants and thresholds regenerated from source, contract theorems for operands of any length, Flocq binary32 for the f32 filter, proved-sound contract checker) + extracted checker on a correspondence run"
+              "as Z (C01/C02), the ring arithmetic of repr_rem's ConstDivisor branch as Z modulo |rhs| (C13); (6) (round 4) no open finding is left: the former classes (add_overlong_cancellation, overlong_operand_double_rounding) "
+              "are repaired and only tag cases in the histogram (cls=long-formerclass-*); the round-3 theorems about the OLD models "
+              "(C03_add_any_length, C03_*_upto_thresholds, C03_*_refuted, C03_long_source_constants, C03_div_source_constants) stay as "
+              "statements about those Gallina functions - the fragments of the source they were tied to (pre-shrinking of mul.rs and of "
+              "Context::div, the single expansion step) no longer exist, so those parts of coq/gen/FloatLongParams.v are frozen copies "
+              "(reported as `partial`), the tie to today's code is the whole-body regeneration; "
+              "(7) the ownership forms of % and the Euclidean traits are one model each (they clone and forward); "
+              "(8) the symbolic executor tools/translate_c03_r4.py is trusted to render the Rust subset it accepts faithfully (atoms "
+              "listed in its header: IBig / usize / isize arithmetic as Z, casts as identity, `^ & 1` as parity, Repr::new as normalize, "
+              "repr_round as the hand model repr_round_n, digits_ub abstract); the fuel it hands to the loop of repr_round_sum "
+              "(low-part precision + 1) is a constant of the translator, proved sufficient (C03_round_sum_loop_invariant); "
+              "(9) exponent range: only mul / sqr / cubic are modelled with machine exponents; for add / sub the run covers exponent "
+              "gaps up to 2^64 - 1 against the unbounded model (the gap is formed without overflow since /repo abdd8e0, another "
+              "engineer's repair), div / sqrt / inv are not modelled with bounded exponents; a build WITHOUT overflow checks wraps "
+              "where the harness profile panics (Context::mul(2e(isize::MAX), 3e1) = 6e(isize::MIN) in a release probe): not "
+              "observable by this check, reported to C16; "
+              "(10) Sum for FBig is not modelled (Product is).")
+TECHNIQUE = "Coq proof (rounding tables, constants and WHOLE function bodies of add / sub / mul / div / sqrt regenerated from source and proved equal to the models, contract theorems for operands of any length over the repaired code, Flocq binary32 for the f32 filter, proved-sound contract checker) + extracted checker on a correspondence run"
 RULE = ("cases = op x base {2,3,8,10,16,36} x six modes x precision {1..5, 7, 10, 17, 24, 53, 64, 100 (1000+ thorough)} x operand "
         "shapes: significand digit counts {1, 2, p-1, p}, exponent gaps {0, 1, p-d, p, p+1, p+2, just beyond / far beyond the "
         "precision, huge}, constructed ties and near-ties (half an ulp +- one unit of a far lower digit), cancellation to zero or one "
@@ -133,6 +165,11 @@ RULE = ("cases = op x base {2,3,8,10,16,36} x six modes x precision {1..5, 7, 10
         "(remainder = root, cut-off part = 1/4) +-1; rem / % / rem_euclid / div_euclid / div_rem_euclid in every ownership form with "
         "the three exponent cases, ties of the nearest quotient, exact multiples, over-long dividends, zero divisors; Inverse for "
         "FBig / &FBig; float (+|-) primitive / big integer in both orders. "
+        "Round 4: constructed multi-round cancellations for the loop of repr_round_sum (the aligned sum cancels to a value j = 0 .. gap-1 "
+        "digits below the rounding position, to a power of the base minus / plus a little, to exactly a power) on both operand "
+        "orders; Product for FBig with 0 .. 4 factors of different precisions by value and by reference (prod); exponents next "
+        "to isize::MAX / isize::MIN (mulx / sqrx / cubicx with the first exponent sum, the rounded and the normalised exponent "
+        "-3p .. +100 around the border, addx / subx with exponent gaps up to 2^64 - 1; exponent token `min` = isize::MIN). "
         "non-trivial = the exact result is not representable (rounding happened) or an alignment branch other than the trivial one ran; "
         "counted by the oracle (cls=inexact-*) over distinct case texts.")
 EXPLANATION = ("The verdict of every arithmetic case is computed by Contract.check_contract (Coq, extracted; proved sound for rational "
@@ -140,12 +177,16 @@ EXPLANATION = ("The verdict of every arithmetic case is computed by Contract.che
                "AddOne/SubOne truthful, x representable => exact, at most p+1 digits; the returned Repr must be normalised. x is the exact "
                "rational (or square root) of the operands; for rem it is lhs - n * rhs with n the quotient rounded to nearest, ties away, "
                "for rem_euclid lhs - q * rhs with 0 <= x < |rhs| (div_euclid must return that q). Over-long operands (ops ending in l) "
-               "are judged by the same contract; a violation is accepted as a known finding only inside the two recorded classes "
-               "(LongModel.add_short_class, mul/sqr/cubic/div_long_class) and only if the answer is exactly what the as-is model predicts. "
+               "are judged by the same contract, without exception since the repairs of round 4 (the former classes only tag the case). "
+               "prod: the answer must be the chain of operator steps of Float/IterModel.v (each step proved to be one rounding of the "
+               "exact product), precision = the largest precision of the factors (0 for the empty product). Ops ending in x (exponents "
+               "next to isize::MAX / MIN): the exact value cannot be formed (B^exponent), the answer must be the proved model - for mul "
+               "/ sqr / cubic the model with machine exponents: a panic iff an exponent computation leaves isize. "
                "rfract cases: the answer must be the one the exact comparison gives (Model.round_fract).")
 TRUSTED_BASE = [
     "Coq 8.16.1 kernel; the four standard-library axioms of the classical reals (used only by the statements about f32 bounds / Flocq's binary32 and by the checker-soundness theorems); Flocq 4.1.0 (installed library) for IEEE binary32",
     "tools/translate.py renders the six round_low_part bodies of float/src/round.rs and the listed constants / conditions of add.rs, root.rs, round.rs, div.rs faithfully; tools/translate_c03_r3.py (strict regular expressions; reports unparsed and keeps the last copy otherwise) the factors / tests of mul.rs, the exactness condition and half test of root.rs, the pick and exponent of repr_rem, the zero shortcut of Context::sub, the expansion shift of repr_round_sum",
+    "tools/translate_c03_r4.py (round 4): a symbolic executor for the Rust subset of float/src/{add,mul,div,root}.rs (let / tuple patterns / deferred let, assignment and += -= on variables, tuple and Repr fields, in-place helpers, if / match as statement or expression, early return, one while loop with break, closures of map / and_then / then_with / round_low_part) with the atom table in its header; reports unparsed and keeps the last copy otherwise; the loop fuel (low-part precision + 1) is its constant",
     "extraction: ExtrOcamlBasic + ExtrOcamlZBigInt + coq/extract/FastZ.v directives; zarith 1.12; oracle/driver_c03.ml computes the exact result of the operands as a fraction (sum, product, quotient, nearest / Euclidean remainder)",
     "harness/src/bin/c03.rs and hlib (values moved through raw words, Repr::new, Context::new)",
     "IBig arithmetic below the float layer behaves as Z (C01, C02, C09, C12 sqrt_rem); the modular ring used by repr_rem behaves as Z modulo |rhs| (C13)",
@@ -153,7 +194,8 @@ TRUSTED_BASE = [
     "check_contract on square-root exact values (XSqrt) has no soundness theorem",
 ]
 ASSUMPTIONS = [
-    "operands are finite and fit the context precision (digits <= p), as the property states (the round-3 theorems and cases about longer operands go beyond this premise)",
+    "operands are finite and fit the context precision (digits <= p), as the property states (the round-3 / round-4 theorems and cases about longer operands go beyond this premise)",
+    "exponents: the models compute in Z; results whose exponents leave isize are outside the property (documented: the operation panics) - modelled for mul / sqr / cubic only",
     "ulp_p(x) = B^(floor(log_B |x|) - p + 1)",
 ]
 
@@ -585,10 +627,33 @@ def gen_long_addsub(rng, tier, b, p):
 
 def gen_long_muldiv(rng, tier, b, p):
     """mul / sqr / cubic / div / inv at the pre-shrinking thresholds 2p, 3p, p + digits(rhs) -1/0/+1 and beyond"""
-    k = rng.below(10)
+    k = rng.below(12)
     m = rng.choice(MODES)
     e1 = rng.choice([0, 1, -3, 17, -300])
     e2 = rng.choice([0, -1, 4, -17, 299])
+    if k >= 10:
+        # round 4: operands on which ANY pre-rounding of the long operand shows (whatever threshold a future shrink uses):
+        # a p-digit head, then zeros and a last digit far below (a first rounding is inexact, the second sees an exact
+        # value: wrong flag / wrong side), or - even bases - head | b/2-1 | b-1 ... b-1 | digit above one half (the first
+        # rounding creates a tie that is not there); the other operand is tiny so that the product keeps the pattern
+        L = rng.choice([2 * p + 1, 2 * p + 3, 3 * p + 1, 3 * p + 4, 4 * p + 2, 6 * p + 3])
+        head = gen_sig(rng, b, p)
+        low_digits = L - p
+        if b % 2 == 0 and low_digits >= 3 and rng.chance(1, 2):
+            cut = rng.range(1, low_digits - 2)                     # the run of b-1 digits ends `cut` digits below the half digit
+            low = (b // 2 - 1) * b ** (low_digits - 1) + (b ** (low_digits - 1) - b ** (low_digits - 1 - cut)) \
+                + rng.range(b // 2 + 1, b - 1) * b ** max(0, low_digits - 2 - cut)
+            low = min(low, b ** low_digits - 1)
+        else:
+            low = rng.choice([1, b - 1, b ** rng.range(0, max(0, low_digits - p - 1))])
+        s1 = head * b ** low_digits + low
+        s2 = rng.choice([1, 1, 2, b + 1, 3])
+        op = rng.choice(["mull", "mull", "sqrl", "cubicl", "divl"])
+        if op in ("sqrl", "cubicl"):
+            return fmt(op, b, m, p, rng.choice([1, -1]) * s1, e1)
+        if rng.chance(1, 2) and op == "mull":
+            s1, s2 = s2, s1
+        return fmt(op, b, m, p, rng.choice([1, -1]) * s1, e1, rng.choice([1, -1]) * s2, e2)
     if k < 3:
         d1 = rng.choice([p + 1, 2 * p - 1, 2 * p, 2 * p + 1, 2 * p + 2, 3 * p + 1])
         d2 = rng.choice([1, p, p + 1, 2 * p, 2 * p + 1])
